@@ -5,6 +5,7 @@ pub mod c17;
 pub mod c18;
 pub mod c19;
 pub mod common;
+pub mod fsprops;
 
 pub fn run(id: &str, tier: &str) -> i32 {
     let st = crate::selftest::run(false);
@@ -13,6 +14,12 @@ pub fn run(id: &str, tier: &str) -> i32 {
     }
     match id {
         "C01" => c01::run(tier),
+        "C02" | "C03" | "C04" | "C05" | "C16" => {
+            let d = hist_def(id).unwrap();
+            let mut rep = crate::engine::Report::new(d.id, tier, d.level);
+            common::run_hist(&d, tier, &mut rep);
+            rep.finish()
+        }
         "C15" => c15::run(tier),
         "C17" => c17::run(tier),
         "C18" => c18::run(tier),
@@ -26,6 +33,11 @@ pub fn run(id: &str, tier: &str) -> i32 {
 fn hist_def(id: &str) -> Option<common::HistProp> {
     match id {
         "C01" => Some(c01::def()),
+        "C02" => Some(fsprops::c02_def()),
+        "C03" => Some(fsprops::c03_def()),
+        "C04" => Some(fsprops::c04_def()),
+        "C05" => Some(fsprops::c05_def()),
+        "C16" => Some(fsprops::c16_def()),
         _ => None,
     }
 }
